@@ -597,3 +597,33 @@ Example witnesses_nonvacuous :
   map wit_bytes (sign_witnesses H28 ord_pub ord_sign ext [hx "aa"] false keys (hx "ff"))
   = [(hx "aa01", hx "aa01ff")].
 Proof. vm_compute. reflexivity. Qed.
+
+(* build_and_sign_spec / witnesses_valid: all premises hold together for concrete well-formed keys (trivial group,
+   zero signatures): one ordinary and one extended key, both required *)
+Example witnesses_valid_nonvacuous :
+  let enc := fun _ : unit => le 32 0 in
+  let ord_pub := fun _ : bytes => le 32 0 in
+  let ord_sign := fun _ _ : bytes => le 64 0 in
+  let H28 := fun b : bytes => firstn 28 b in
+  let H32 := fun b : bytes => firstn 32 b in
+  let keys := [SkOrd (le 32 7) 1; SkExt (le 128 0) 11] in
+  let b := mkB [KeyH (firstn 28 (le 32 0))] [] [] [] [] [] [] [] None in
+  Forall (wf_skey unit (fun _ => tt) enc) keys
+  /\ Forall wf_key keys
+  /\ length (build_and_sign_witnesses H28 H32 ord_pub ord_sign (ext_sign_model unit (fun _ => tt) enc (fun _ => 0))
+               b None false keys (le 40 9)) = 1%nat
+  /\ forall w, In w (build_and_sign_witnesses H28 H32 ord_pub ord_sign (ext_sign_model unit (fun _ => tt) enc (fun _ => 0))
+                       b None false keys (le 40 9)) ->
+       length (w_vk w) = 32%nat
+       /\ ed_verify unit tt (fun _ _ => tt) (fun _ => tt) (fun _ => Some tt) (fun _ => 0) (w_vk w) (H32 (le 40 9)) (w_sig w).
+Proof.
+  intros enc ord_pub ord_sign H28 H32 keys b.
+  assert (W : Forall (wf_skey unit (fun _ => tt) enc) keys).
+  { constructor; [vm_compute; reflexivity|]. constructor; [|constructor].
+    split; [vm_compute; reflexivity|]. split; vm_compute; reflexivity. }
+  split; [exact W|]. split; [constructor; [vm_compute; reflexivity|]; constructor; [vm_compute; reflexivity|constructor]|]. split; [vm_compute; reflexivity|].
+  apply (witnesses_valid unit tt (fun _ _ => tt) (fun _ => tt) (fun _ => tt) enc (fun _ => Some tt) (fun _ => 0)); auto.
+  all: try (intros []; reflexivity).
+  all: try (vm_compute; reflexivity).
+  intros seed m _. split; [vm_compute; reflexivity|]. exists tt, tt. repeat split; vm_compute; reflexivity.
+Qed.
